@@ -247,7 +247,9 @@ pub fn run_c17(ctx: &mut Ctx) {
                 // multi-byte / multi-code-point characters inside otherwise plain ASCII text
                 let at = ctx.rng.random_range(0..=s.len());
                 if s.is_char_boundary(at) {
-                    s.insert_str(at, ["\r\n", "a\u{301}", "\u{1F1E9}\u{1F1EA}", "x\r\ny"][ctx.rng.random_range(0..4)]);
+                    s.insert_str(at, ["\r\n", "a\u{301}", "\u{1F1E9}\u{1F1EA}", "x\r\ny",
+                        // clusters on which legacy and extended grapheme segmentation differ (spacing marks, conjuncts, SARA AM)
+                        "\u{928}\u{92e}\u{938}\u{94d}\u{924}\u{947}", "\u{915}\u{940}", "\u{e01}\u{e33}", "\u{939}\u{93f}\u{928}\u{94d}\u{926}\u{940}"][ctx.rng.random_range(0..8)]);
                 }
             }
             let multi = clusters(&s, true).iter().any(|c| c.len() > 1);
